@@ -54,6 +54,10 @@ def make_wn(c, rng):
                          n_junc=(3, 14) if c.tier == 'quick' else (3, 40))
     if c.index % 3 == 0:
         gnet.add_isolation_schedule(spec, rng)
+    if c.index % 7 == 3 and spec['patterns']:
+        # options.hydraulic.pattern: the pattern of every demand entry that names none
+        spec['options']['extra_hydraulic'] = dict(spec['options'].get('extra_hydraulic') or {}, pattern=sorted(spec['patterns'])[0])
+        c.count('default_pattern_cases')
     wn = gnet.build(spec)
     return wn, {'spec': spec}, (gnet.signature(spec),)
 
